@@ -46,6 +46,17 @@ static void update_cb(struct pfx_table *t, const struct pfx_record r, const bool
 	if (!hit)
 		g_cb_bad++;
 }
+#ifdef VERIF_NATIVE
+/* native replay: the destruction path never allocates; these only satisfy the linker */
+void *lrtr_malloc(size_t n)
+{
+	abort();
+}
+void *lrtr_realloc(void *p, size_t n)
+{
+	abort();
+}
+#endif
 void lrtr_free(void *p)
 {
 	bool hit = false;
